@@ -6,7 +6,7 @@ from ..paths import loop_system, entry_value, loop_state_vars
 from ..describe import describe
 from .. import lemmas
 from .common import configs_for, has_feature
-from .util import Rule, guarded, site_of_block
+from .util import Rule, guarded, site_of_block, check_visits_all
 from . import models, C06
 
 TITLE = "Optimal-fit returns a minimum-cost arrangement under the documented penalties"
@@ -72,6 +72,7 @@ def _prefix_sums(prog, rep):
     wpk = wv[2] if wv[0] == "phi" else wv[3]
     f = pre.item
     W, WS = ("call", "Fragment::width", (f,)), ("call", "Fragment::whitespace_width", (f,))
+    check_visits_all(r, body, pre, "the prefix-width loop")
     for tr in loop_system(prog, body, pre, [apk], [wpk]):
         if tr.kind != "back":
             continue
@@ -172,8 +173,10 @@ def _cost(prog, rep):
             r.check(False, "case:%s,%s" % (name, hy), "", "", "the cost closure has no path for the case %s/%s of the documented model "
                     "(conditions %s)" % (name, hy, sorted("%s %s" % (k, show(p)) for k, p in conds)))
             continue
-        g = hits[0]
-        matched.add(id(g[2]))
+        # several paths may lead to one case (a value-level match inside the closure splits paths, not cases)
+        for g in hits:
+            matched.add(id(g[2]))
+        g = next((h for h in hits if h[1] != cost), hits[0])
         r.check(g[1] == cost, "cost:%s,%s" % (name, hy), "case %s/%s: cost = %s" % (name, hy, show(cost)[:200]), "normal forms equal",
                 "in the case %s (%s) the closure returns %s; the documented model gives %s" % (name, hy, show(g[1])[:300], show(cost)[:300]),
                 site=site_of_block(cb, g[2].path[-2]))
